@@ -5,8 +5,8 @@ CONSTANTS
   Hidden = {7, 8}
   OutSet = {5, 6}
   Shapes = {{1, 3, 5, 7}, {1, 5, 7}, {1, 3, 4, 5}}
-  Weights <- W4
-  InVals <- V4
+  Weights <- W3
+  InVals <- V3
   OrderKinds = {"IBOH", "BIHO", "IBHO"}
   ActSchemes <- SchemesAll
   LinkCaps = {6}
